@@ -286,3 +286,7 @@ def run(ck, prog, ctx):
     ck.rule("WRAPPER", "len / is_empty / contains / get / iter / push ... of a wrapper type delegate to the same-named method of ONE inner collection, un-negated (DESIGN 3.9)")
     from engines import check_wrappers
     check_wrappers(ck, "WRAPPER", prog, r"^src/parser/binary\.rs$", floor=2)
+    # failures of fallible crate functions are propagated or asserted, never turned into success
+    ck.rule("ERR", "every call of a crate function returning Result<_, HpoError> propagates the error (`?` / return / match), panics on it (unwrap / expect), or is a listed documented exception; none replaces it by a default")
+    from engines import check_error_discipline
+    check_error_discipline(ck, "ERR", prog, r"^src/parser/binary|^src/annotations/|^src/term/internal\.rs$", allowed=[(r"^Ontology::hpo$", r"try_new$", "documented: Ontology::hpo answers None for an id that is not in the ontology")], floor=2)
